@@ -2,7 +2,7 @@
 import ast
 
 from ..core import AnalysisError, dotted, call_name, src, walk_local
-from ..flow import leaves, linear, Lin
+from ..flow import leaves, linear, Lin, edge_facts
 from ..rules import (inline_helpers, flow_of, state_writes, facts_at, calls_in, bind_args, canon, lin, is_lin, cmp_norm, collect_list,
                      who_writes, who_calls, elem_symbols)
 from ..units import check_units
@@ -268,6 +268,43 @@ def rule_call_chain(ck, rid="C02.R4"):
                    bad="Linear2StageBattery.charge must delegate once with unchanged arguments", sink="dispatch")
 
 
+
+def rule_connected_charged(ck, rid="C02.R10"):
+    """every accepted pilot reaches the connected EV: in BaseEVSE.set_pilot the only way to finish normally without calling
+    self._ev.charge(pilot, voltage, period) is through an edge on which no EV is connected.  (A pilot of 0 is a pilot: the EV's
+    reported rate must become what its battery returns for it, otherwise the previous period's rate is recorded again.)"""
+    repo = ck.repo
+    n = 0
+    for ci in [repo.cls("BaseEVSE")] + list(repo.subclasses("BaseEVSE")):
+        f = ci.methods.get("set_pilot")
+        if f is None or "/tests/" in f.module:
+            continue
+        fl = flow_of(inline_helpers(repo, f))
+        cfg = fl.cfg
+        calls = [(nd, c) for nd, c in calls_in(fl, "charge") if canon(c.func.value) in ("self._ev", "self.ev")]
+        if not calls:
+            if ci.name == "BaseEVSE":
+                ck.violation(rid, f, f.node, "set_pilot never charges the connected EV", sink="set_pilot:no-charge")
+            continue
+        n += 1
+        for nd, c in calls:
+            b = bind_args(c, repo.fn("EV.charge"), method=True)
+            ok = [canon(fl.expand(b.get(p, ast.Constant(None)), nd)) for p in ("pilot", "voltage", "period")] == f.params[1:4]
+            ck.require(ok, rid, f, c, ok="the EV is charged with the pilot, voltage and period that were set", bad="EV.charge is not called with (pilot, voltage, period) unchanged",
+                       sink="set_pilot:charge-args")
+        no_ev = set()
+        for e in cfg.nodes:
+            if e.kind == "edge" and e.test.kind == "test":
+                for a, t in edge_facts(e.test.expr, e.label):
+                    cn = cmp_norm(fl.expand(a, e.test), t)
+                    if cn and canon(cn[0]) in ("self._ev", "self.ev") and canon(cn[2]) == "None" and cn[1] in ("is", "=="):
+                        no_ev.add(e)
+        skip = cfg.exit in cfg.reach(cfg.entry, avoid={nd for nd, c in calls} | no_ev | {cfg.raise_exit})
+        ck.require(not skip, rid, f, calls[0][1], ok="every accepted pilot is passed on to the connected EV",
+                   bad=f"{f.qual} can finish normally with an EV connected and without calling its charge(): for that pilot the EV keeps reporting the rate of an "
+                       "earlier period, which is then recorded again", sink="set_pilot:skips-charge", positive=True)
+    ck.floor(rid, n, 1, "set_pilot implementations")
+
 def rule_binding(ck, rid="C02.R5"):
     repo = ck.repo
     up = repo.fn("ChargingNetwork.update_pilots")
@@ -521,6 +558,7 @@ def run(ck):
     from .c01 import rule_loop
     ck.attempt(rule_loop, rid="C02.R4o")
     ck.attempt(rule_binding)
+    ck.attempt(rule_connected_charged)
     ck.attempt(rule_vacancy)
     ck.attempt(rule_recording)
     from .c18 import rule_energy_totals, rule_current_power
